@@ -497,6 +497,7 @@ type runner struct {
 	samplerFx  *fixture
 	all        []fspec
 	args       []*argRec
+	soft       []*failure // violations that do not end the case (a modified argument slice)
 	// alwaysDecode turns the byte-equality shortcut off
 	alwaysDecode bool
 }
@@ -514,6 +515,8 @@ func touch(fs []fspec, ev int) {
 func (r *runner) exec(c caseDesc) (fail *failure) {
 	r.muts = r.muts[:0]
 	r.args = r.args[:0]
+	r.soft = r.soft[:0]
+	sliceReported := false
 	var lastArg *argRec
 	r.casesRun++
 	fx := r.newFixture(c.fam)
@@ -644,8 +647,10 @@ func (r *runner) exec(c caseDesc) (fail *failure) {
 			}
 			nodes = append(nodes, n)
 			if rec != nil {
-				if d := rec.changed(); d != "" {
-					return &failure{key: famName + ":caller-slice-modified:" + curOp, what: fmt.Sprintf("derive n%d (%s) changed the argument slice it was handed: %s", i, curOp, d)}
+				if d := rec.changed(); d != "" && !sliceReported {
+					// reported, but the case goes on: what the loggers emit afterwards is checked as well
+					sliceReported = true
+					r.soft = append(r.soft, &failure{key: famName + ":caller-slice-modified:" + curOp, what: fmt.Sprintf("[%s] %s | schedule %s | derive n%d (%s) changed the argument slice it was handed: %s", famName, c.progString(), c.variant, i, curOp, d)})
 				}
 			}
 			continue
@@ -689,7 +694,7 @@ func (r *runner) exec(c caseDesc) (fail *failure) {
 
 	// slices retained by a logger (lazy cores keep them) must still be what the caller passed
 	for _, rec := range r.args {
-		if d := rec.changed(); d != "" {
+		if d := rec.changed(); d != "" && !sliceReported {
 			return &failure{key: famName + ":caller-slice-modified-later", what: fmt.Sprintf("an argument slice was intact when its derivation returned but differs at the end of the program: %s", d)}
 		}
 	}
